@@ -146,7 +146,7 @@ func genAOps(rc *RunCtx, c ACfg) []Op {
 	var ops []Op
 	add := func(o Op) { o.Uid = len(ops); ops = append(ops, o) }
 	for len(ops) < n {
-		switch r.Weighted([]int{30, 30, 14, 12, 4}) {
+		switch r.Weighted([]int{30, 30, 14, 12, 4, 4}) {
 		case 0: // mutating request with some identity
 			add(Op{Kind: "mutate", A: int64(r.Intn(12)), B: int64(r.Intn(10)), C: int64(r.Intn(6)), D: int64(r.Intn(6))})
 		case 1: // read view compared with the reference aggregation
@@ -157,6 +157,8 @@ func genAOps(rc *RunCtx, c ACfg) []Op {
 			add(Op{Kind: "config", A: int64(r.Intn(8)), B: int64(r.Intn(3)), C: int64(r.Pick(0, 0, 1, 2, 3, 4))})
 		case 4: // an upstream whose (well-formed) JSON arrays contain null entries
 			add(Op{Kind: "nullview", A: int64(r.Intn(8)), B: int64(r.Intn(6)), C: int64(r.Intn(6))})
+		case 5: // a reconfiguration of the lookupd list that is refused (or changes nothing)
+			add(Op{Kind: "badreconf", A: int64(r.Intn(4))})
 		}
 	}
 	return ops
@@ -611,6 +613,8 @@ func adminWorld(rc *RunCtx) {
 			w.opConfig(op)
 		case "nullview":
 			w.opNullView(op)
+		case "badreconf":
+			w.opBadReconf(op)
 		}
 		synctest.Wait()
 		if rc.Failed() {
@@ -1459,4 +1463,43 @@ func (w *aWorld) opNullView(op Op) {
 	}
 	rc.Probe("views_with_null_entries")
 	w.setMode(n, old)
+}
+
+// opBadReconf: PUT /config/nsqlookupd_http_addresses (from an allowed address) with a value that is
+// refused - its first element looks like an address, a later one is not a string - or with the list that
+// is configured already. Neither may change which upstreams nsqadmin asks: the views that follow are
+// still compared with the reference over all configured lookupds.
+func (w *aWorld) opBadReconf(op Op) {
+	if w.cfg.NLookupd == 0 {
+		return
+	}
+	var src net.IP
+	if w.cfg.CIDR != "" {
+		_, ipn, _ := net.ParseCIDR(w.cfg.CIDR)
+		src = append(net.IP(nil), ipn.IP...)
+		src[len(src)-1] |= 1
+	}
+	var body []byte
+	want := 400
+	switch op.A % 4 {
+	case 0:
+		body = []byte(`["127.0.0.1:1", 5]`)
+	case 1:
+		body = []byte(`["127.0.0.1:2", "127.0.0.1:3", {"x":1}]`)
+	case 2:
+		body = []byte(`["127.0.0.1:4"`)
+	default:
+		var l []string
+		for _, n := range w.lookupds() {
+			l = append(l, n.addr)
+		}
+		body, _ = json.Marshal(l)
+		want = 200
+	}
+	resp := httpDo(w.rc, "PUT", w.http, "/config/nsqlookupd_http_addresses", body, nil, src, 30*time.Second)
+	w.rc.Logf("reconf %s -> %d %q err=%v", body, resp.Status, trunc(resp.Body, 80), resp.Err)
+	w.rc.Probe("refused_reconfigurations")
+	if resp.Err != nil || resp.Status != want {
+		w.violate("C17", "config-status", "PUT /config/nsqlookupd_http_addresses %s from %v answered %d (err %v), expected %d", body, src, resp.Status, resp.Err, want)
+	}
 }
